@@ -1274,7 +1274,13 @@ pub fn unify(
                 return Ok(()); // the empty union (NEVER) is a subtype of anything
             }
 
-            let pattern_variants = pattern_variants.clone();
+            // Try the structured pattern variants before a bare type variable: a variable
+            // unifies with anything (by widening), so in `'t | []` against `'int | []` it would
+            // otherwise swallow the argument's nil — which the pattern's own `[]` accounts for —
+            // and bind 't to `'int | []`.
+            let mut pattern_variants = pattern_variants.clone();
+            pattern_variants
+                .sort_by_key(|id| matches!(program.lookup_type(*id), Some(Type::Variable(_))));
             let concrete_variants = concrete_variants.clone();
 
             for &concrete_variant in &concrete_variants {
